@@ -316,6 +316,13 @@ class PhaseWorld(World):
             return [Violation("C20", "unexpected-refusal", site + ":build", {"exception": repr(ex)[:300], "op": op})]
         reps = op.get("reps", 1)
         for rep in range(reps):
+            if (op.get("np_seed", 0) + rep) % 3 == 0:
+                # resource estimation is a read-only query (documented to be usable before and after simulate)
+                try:
+                    solver.get_resources()
+                    ctx.probe("C20.get_resources_between_calls")
+                except Exception as ex:
+                    ctx.ev("get_resources-refused", repr(ex)[:80])
             used0 = rngseam.SEAM.scripted_consumed
             if op.get("script"):
                 rngseam.SEAM.arm(script=list(op["script"]))
